@@ -323,6 +323,9 @@ def C19(run):
         open(out, "w").close()
         st = _record_loads(run, exe, ["--stack", str(kb), "--lean", "nest"], out, "nesting families on a %d KiB stack (L=%d)" % (kb, Lv))
         stack_runs += st["executed"]
+        # shallow trees whose payloads / member counts are 8x the stack budget: stack use must not grow with them
+        st = _record_loads(run, exe, ["--stack", str(kb), "--lean", "big", str(8 * kb)], out, "large shallow trees on a %d KiB stack (L=%d)" % (kb, Lv))
+        stack_runs += st["executed"]
         with open(out) as f:
             for l in f:
                 if '"shapefail"' in l:
@@ -341,6 +344,7 @@ def C14(run):
     out = run.path("seq.ndjson")
     open(out, "w").close()
     st = _record_loads(run, exe, ["seq", "150" if q else "3000"], out, "suffix independence")
+    st2 = _record_loads(run, exe, ["--libc", "seq", "40" if q else "800"], out, "suffix independence (C library allocator)")
     n = count_lines(out)
     res = tracecheck(run, "Trace_Sequence", out, boundary=None, env={"VERIF_L": "2048"})
     _report_rejects(run, res, "suffix independence / sequence splitting",
@@ -667,6 +671,13 @@ def C13(run):
         _record_simple(run, exe, [mode, "600" if q else "15000"], part, "allocator workload (%s)" % mode)
         with open(out, "ab") as fo, open(part, "rb") as fi:
             fo.write(fi.read())
+    # nesting beyond the decoder's limit, against a build with a small limit (short logs)
+    lib8 = build_lib(run, "dbg", 8)
+    exe8 = build_harness(run, lib8, "h_alloc", ALLOC_SRC, extra=WRAP)
+    part = run.path("alloc-limit.ndjson")
+    _record_simple(run, exe8, ["c13limit", "0"], part, "allocator workload (over-limit nesting, L=8)")
+    with open(out, "ab") as fo, open(part, "rb") as fi:
+        fo.write(fi.read())
     # the ownership histories of C04 under the same allocator: foreign / repeated frees and leaks are judged there as well
     exe2 = build_harness(run, lib, "h_items_w", ITEMS_SRC, extra=WRAP)
     hist = run.path("items.ndjson")
